@@ -284,7 +284,7 @@ func (w *World) FGI(fn *ssa.Function) *FG {
 		return w.FG(fn)
 	}
 	if g, ok := w.fgis[fn]; ok {
-		if g.inl != nil {
+		if g.inl != nil && w.curLock == 0 {
 			w.cur = g
 		}
 		return g
@@ -415,7 +415,9 @@ func (w *World) FGI(fn *ssa.Function) *FG {
 		}
 	}
 	w.fgis[fn] = g
-	w.cur = g
+	if w.curLock == 0 {
+		w.cur = g
+	}
 	return g
 }
 
